@@ -338,6 +338,10 @@ string DNS::decode_domain_name(const string& domain_name) {
 uint32_t DNS::compose_name(const uint8_t* ptr, char* out_ptr) const {
     const uint8_t* start_ptr = ptr;
     const uint8_t* end = &records_data_[0] + records_data_.size();
+    // The name has to start inside the message...
+    if (TINS_UNLIKELY(ptr >= end)) {
+        throw malformed_packet();
+    }
     const uint8_t* end_ptr = 0;
     char* current_out_ptr = out_ptr;
     uint8_t pointer_counter = 0;
@@ -368,7 +372,9 @@ uint32_t DNS::compose_name(const uint8_t* ptr, char* out_ptr) const {
             // It's a label, grab its size.
             uint8_t size = *ptr;
             ptr++;
-            if (TINS_UNLIKELY(ptr + size > end || current_out_ptr - out_ptr + size + 1 > 255)) {
+            // ...and every label has to be followed by another label, a pointer
+            // or the terminating null label
+            if (TINS_UNLIKELY(ptr + size >= end || current_out_ptr - out_ptr + size + 1 > 255)) {
                 throw malformed_packet();
             }
             // Append a dot if it's not the first one.
